@@ -3,6 +3,7 @@ package checks
 import (
 	"encoding/json"
 	"fmt"
+	"regexp"
 	"strings"
 
 	"github.com/snower/slock/protocol"
@@ -61,12 +62,70 @@ func c16Histories(quick bool) [][]SeqOp {
 		}
 		return h
 	}
-	hs := [][]SeqOp{mk(7, false, false), mk(8, true, false), mk(9, true, true), mk(12, true, true), upd(7), ord()}
+	// keys with two holders whose value was written by a holder that has left since (the value lives on with the
+	// key, the records that carry it belong to a LockId that holds nothing any more)
+	v1 := protocol.NewLockCommandDataSetString("v-one").Data
+	v2 := protocol.NewLockCommandDataSetString("v-two").Data
+	departed := append([]SeqOp{
+		op(0, z(L(0, 42, 2, 0, 90, 1, 0))),               // B, no value
+		op(0, withData(z(L(0, 42, 1, 0, 90, 1, 0)), v1)), // A sets the value
+		op(0, U(0, 42, 1)),                               // A leaves: B holds, the value stays
+	}, mk(5, false, false)...)
+	unlockValue := append([]SeqOp{
+		op(0, withData(z(L(0, 43, 1, 0, 90, 1, 0)), v1)),
+		op(0, z(L(0, 43, 2, 0, 90, 1, 0))),
+		op(0, withData(hapi.Cmd{Type: 2, Key: 43, Id: 1}, v2)), // A's UNLOCK carries the new value
+	}, mk(5, false, false)...)
+	// holds whose Rcount byte is a priority (timeout flag 0x10): renewed by an update, and taken with the update flag
+	prio := append([]SeqOp{
+		op(0, withTF(z(L(0, 44, 1, 0, 30, 0, 3)), 0x10)),
+		tick(1 * sec),
+		op(0, withF(withTF(z(L(0, 44, 1, 0, 600, 0, 3)), 0x10), 0x02)),
+		op(0, withF(withTF(z(L(0, 45, 1, 0, 600, 0, 3)), 0x10), 0x02)),
+	}, mk(5, false, false)...)
+	// an unlimited hold taken with the update flag (Expried 0xffff) on a key whose value changes afterwards
+	unlimited := append([]SeqOp{
+		op(0, withData(withF(withEF(hapi.Cmd{Type: 1, Key: 46, Id: 1, Expried: 0xffff, Count: 1}, fUnlim|efZeroAof), 0x02), v1)),
+		op(0, withData(z(L(0, 46, 2, 0, 600, 1, 0)), v2)),
+	}, mk(5, false, false)...)
+	hs := [][]SeqOp{mk(7, false, false), mk(8, true, false), mk(9, true, true), mk(12, true, true), upd(7), ord(), departed, unlockValue, prio, unlimited}
 	if !quick {
 		hs = append(hs, mk(5, true, false), mk(10, false, true), mk(14, true, true), mk(16, true, false),
 			append(mk(6, true, false), tick(3*sec), op(0, z(L(0, 20, 20, 0, 2, 0, 0))), tick(4*sec), op(0, z(L(0, 21, 21, 0, 90, 0, 0))), op(0, z(L(0, 22, 22, 0, 90, 0, 0)))))
 	}
 	return hs
+}
+
+// departedValue: the two renderings differ only in the value of key 0x2a / 0x2b (histories "departed" and
+// "unlockValue": the value was written by a holder that has left since)
+var c16ValRe = regexp.MustCompile(`key2[ab] val[0-9a-f]*:`)
+
+func departedValue(a, b string) bool {
+	return a != b && c16ValRe.ReplaceAllString(a, "key2x val:") == c16ValRe.ReplaceAllString(b, "key2x val:")
+}
+
+// onlyKey2e: the two renderings differ only in the row of key 0x2e (history "unlimited")
+func onlyKey2e(a, b string) bool {
+	strip := func(s string) string {
+		var keep []string
+		for _, row := range strings.Split(strings.ReplaceAll(s, "\n", " / "), " / ") {
+			if !strings.Contains(row, "key2e ") {
+				keep = append(keep, row)
+			}
+		}
+		return strings.Join(keep, " / ")
+	}
+	return a != b && strip(a) == strip(b)
+}
+
+func departedSecond(msg string) bool {
+	items := strings.Split(strings.TrimRight(strings.TrimSpace(msg), "; "), "; ")
+	for _, it := range items {
+		if !(strings.Contains(it, "key2a carried value") || strings.Contains(it, "key2b carried value")) {
+			return false
+		}
+	}
+	return len(items) > 0
 }
 
 type c16Arg struct {
@@ -119,7 +178,13 @@ func evalC16(c *Ctx, cs EnumCase) EnumResult {
 		res.Sub++
 		what := fmt.Sprintf("history %d, crash right after file-system call #%d of a compaction (%s %s)", a.Hist, p.N, p.Op, p.Path)
 		if r.Crash == "" && r.StartErr == "" && r.Second != "" {
-			vs = append(vs, explore.Violation{Sig: "C16:second-restart-differs", Msg: what + ": the first restart recovers the expected state, the restart after it does not: " + r.Second})
+			sig := "C16:second-restart-differs"
+			if departedSecond(r.Second) {
+				sig += "/value-written-by-departed-holder"
+			} else if a.Hist == 9 && strings.Contains(r.Second, "key2e") {
+				sig += "/unlimited-hold-created-by-update-flag"
+			}
+			vs = append(vs, explore.Violation{Sig: sig, Msg: what + ": the first restart recovers the expected state, the restart after it does not: " + r.Second})
 		}
 		if r.Crash != "" {
 			vs = append(vs, explore.Violation{Sig: "C16:recovery-crash", Msg: what + ": " + r.Crash})
@@ -142,6 +207,11 @@ func evalC16(c *Ctx, cs EnumCase) EnumResult {
 			case p.Op == "rename" && strings.HasSuffix(p.Path, "rewrite.aof"):
 				sig += "/record-file-renamed-before-value-file"
 			}
+			if departedValue(r.State, refState) {
+				sig = "C16:interrupted-compaction-changes-state/value-written-by-departed-holder"
+			} else if a.Hist == 9 && onlyKey2e(r.State, refState) {
+				sig = "C16:interrupted-compaction-changes-state/unlimited-hold-created-by-update-flag"
+			}
 			vs = append(vs, explore.Violation{Sig: sig, Msg: fmt.Sprintf("%s: recovers [%s], the directory before the compaction recovers [%s]", what, strings.ReplaceAll(r.State, "\n", " / "), strings.ReplaceAll(refState, "\n", " / "))})
 		}
 	}
@@ -158,7 +228,13 @@ func evalC16(c *Ctx, cs EnumCase) EnumResult {
 	rf := recoverImage(cfg, cap.Final, cap.EndT, false)
 	res.Sub += 1
 	if rb.State != rf.State {
-		vs = append(vs, explore.Violation{Sig: "C16:compaction-changes-state", Msg: fmt.Sprintf("history %d: after %d completed compactions the directory recovers [%s]; the same history logged without compaction recovers [%s]", a.Hist, runs, strings.ReplaceAll(rf.State, "\n", " / "), strings.ReplaceAll(rb.State, "\n", " / "))})
+		sig := "C16:compaction-changes-state"
+		if departedValue(rb.State, rf.State) {
+			sig += "/value-written-by-departed-holder"
+		} else if a.Hist == 9 && onlyKey2e(rb.State, rf.State) {
+			sig += "/unlimited-hold-created-by-update-flag"
+		}
+		vs = append(vs, explore.Violation{Sig: sig, Msg: fmt.Sprintf("history %d: after %d completed compactions the directory recovers [%s]; the same history logged without compaction recovers [%s]", a.Hist, runs, strings.ReplaceAll(rf.State, "\n", " / "), strings.ReplaceAll(rb.State, "\n", " / "))})
 	}
 	// appends continuing while a compaction runs: at EVERY file-system call of every compaction of this history a
 	// burst of further requests arrives and is logged (enough to rotate the append file again) before the call
